@@ -642,7 +642,12 @@ func (x *Exec) selectOp(s *State, f *Frame, in *ssa.Select) []*State {
 	}
 	// pre-select hook
 	pre := "pre"
-	x.siteHooks(s, f, in, "select", "", nil, &pre)
+	preBind := map[string]Value{}
+	for i := range arms {
+		// armchN: the channel operand of arm N (nil = arm disabled)
+		preBind[fmt.Sprintf("armch%d", i+1)] = S(arms[i].ch)
+	}
+	x.siteHooks(s, f, in, "select", "", preBind, &pre)
 	for i := 0; i < total; i++ {
 		var si *State
 		if i == total-1 {
